@@ -213,6 +213,11 @@ def _merged(ck, p, impls, rule="R-C15-merged", only=None):
         dc = dict_calls(p, f)
         names = sorted(set(x[3] for x in dc if x[3] in QUERIES))
         key = "MergedDictionary::%s" % m
+        if m.endswith("_str") and names == [m[:-4]]:
+            # delegation to the slice variant on self (what the other _str methods do): the fold is decided there
+            on_self = all(("arg", 1) in receiver_roots(b, t)[0] for (b, _, t, n2) in dc if n2 == m[:-4])
+            ck.decide(rule, key, on_self, f.span, "delegates to self.%s(chars): %s" % (m[:-4], on_self))
+            continue
         if names != [m]:
             ck.refuted(rule, key, f.span, "expected only child calls to %s, found %s" % (m, names))
             continue
@@ -227,6 +232,22 @@ def _merged(ck, p, impls, rule="R-C15-merged", only=None):
                 if ("arg", 1) in roots and "children" not in fields:
                     on_self = True
         ck.decide(rule, key, reads_children and not on_self, f.span, "folds children[..].%s (iterates self.children=%s, receiver is self=%s)" % (m, reads_children, on_self))
+        if m.startswith("fuzzy_match"):
+            # every part is searched with the caller's own bound: the union of "within d of the query" over the parts
+            for (b, _, t, n2) in dc:
+                if n2 != m or len(t["args"]) < 3:
+                    continue
+                bpv = Prov(b)
+                dist = flatten(bpv.trace_operand(t["args"][2]))
+                from ..common import arg_fields as _af
+                if b is f:
+                    own = dist == {("arg", 3)}
+                else:       # inside a closure of the method: the captured parameter, read through the environment
+                    own = dist == {("arg", 1)} and any("max_distance" in str(x) for x in _af(bpv, t["args"][2])) or all(o[0] == "upvar" and "max_distance" in str(o) for o in dist) and bool(dist)
+                if own:
+                    ck.proved(rule, key + ":bound", b.loc(t["ln"]), "each part is searched with the caller's max_distance")
+                else:
+                    ck.refuted(rule, key + ":bound", b.loc(t["ln"]), "a part is searched with a distance bound that is not the caller's (%s): a word within the caller's bound that only a later part holds is dropped when an earlier part already answered with closer words - the merged dictionary no longer returns the union of its parts' matches" % sorted(map(str, dist))[:3])
     ck.floor(rule, "query methods of MergedDictionary", n, 9 if only is None else len(only))
 
 
